@@ -751,7 +751,7 @@ func runReplay(overlay map[string][]byte, rf replayFile, replayPath, scratch str
 	ovJSON, _ := json.Marshal(map[string]interface{}{"Replace": repl})
 	ovFile := filepath.Join(ovDir, "overlay.json")
 	os.WriteFile(ovFile, ovJSON, 0o644)
-	cmd := exec.Command("go", "test", "-vet=off", "-count=1", "-timeout=120s", "-overlay", ovFile, "-run", "^TestVHReplay$", "-v", ".")
+	cmd := exec.Command("go", "test", "-vet=off", "-count=1", "-timeout=40s", "-overlay", ovFile, "-run", "^TestVHReplay$", "-v", ".")
 	cmd.Dir = pkgDir
 	cmd.Env = goEnv()
 	out, err := cmd.CombinedOutput()
